@@ -545,7 +545,10 @@ func (e *SpecEnv) evalBinary(n EBinary) Val {
 		case ">=":
 			return boolVal(sx("fp.geq", a.C[0], b.C[0]))
 		}
-		e.fail("float arithmetic in specs is not supported: %s", n)
+		if opn, ok := map[string]string{"+": "add", "-": "sub", "*": "mul", "/": "div"}[n.Op]; ok {
+			return Val{T: a.T, C: []string{fpArith(opn, layout(a.T)[0].Sort, a.C[0], b.C[0])}}
+		}
+		e.fail("float operator %s in specs is not supported: %s", n.Op, n)
 	}
 	ai, bi := a.C[0], b.C[0]
 	switch n.Op {
@@ -700,6 +703,19 @@ func (e *SpecEnv) evalCall(n ECall) Val {
 		}
 		return sortedVal(sig.res, sx(n.Fn, ts...))
 	}
+	if strings.HasPrefix(n.Fn, "math_") || strings.HasPrefix(n.Fn, "math32_") {
+		// the Go math library (float64) and gorgonia's math32 (float32): uninterpreted, shared with
+		// the trusted models
+		srt := SF64
+		if strings.HasPrefix(n.Fn, "math32_") {
+			srt = SF32
+		}
+		if len(n.Args) != 1 {
+			e.fail("%s takes one argument", n.Fn)
+		}
+		x.uninterp(n.Fn, []string{srt}, srt)
+		return sortedVal(srt, sx(n.Fn, e.eval(n.Args[0]).C[0]))
+	}
 	if strings.HasPrefix(n.Fn, "k_") {
 		// abstract content kernels (Int^n -> Int), shared with the trusted models
 		var ts []string
@@ -812,7 +828,7 @@ func init() {
 			if !ok {
 				e.fail("tagof needs a string literal type name")
 			}
-			t := e.x.prog.typeByName(s.V)
+			t := e.x.typeByName(s.V)
 			if t == nil {
 				e.fail("tagof: unknown type %q", s.V)
 			}
@@ -822,16 +838,78 @@ func init() {
 			// length of the slice boxed in an interface, given its element type name
 			v := e.eval(n.Args[0])
 			s := n.Args[1].(EStr)
-			t := e.x.prog.typeByName(s.V)
+			t := e.x.typeByName(s.V)
 			if t == nil {
 				e.fail("unknown type %q", s.V)
 			}
 			return specInt(e.x.unbox(e.st, v, t).slen())
 		},
+		// the value of a tensor at the generic element position (see tensor_models.go: generic element)
+		"gen32": func(e *SpecEnv, n ECall) Val {
+			return sortedVal(SF32, e.x.genElem(SF32, e.x.tCont(e.st, tensorRef(e.eval(n.Args[0])))))
+		},
+		"gen64": func(e *SpecEnv, n ECall) Val {
+			return sortedVal(SF64, e.x.genElem(SF64, e.x.tCont(e.st, tensorRef(e.eval(n.Args[0])))))
+		},
+		"genb": func(e *SpecEnv, n ECall) Val {
+			return boolVal(e.x.genElem(SBool, e.x.tCont(e.st, tensorRef(e.eval(n.Args[0])))))
+		},
+		"f32": func(e *SpecEnv, n ECall) Val {
+			v := e.eval(n.Args[0])
+			if v.T != nil && isFloat(v.T) && layout(v.T)[0].Sort == SF32 {
+				return v
+			}
+			return sortedVal(SF32, sx("(_ to_fp 8 24)", "RNE", v.C[0]))
+		},
+		"f64": func(e *SpecEnv, n ECall) Val {
+			v := e.eval(n.Args[0])
+			if v.T != nil && isFloat(v.T) && layout(v.T)[0].Sort == SF64 {
+				return v
+			}
+			return sortedVal(SF64, sx("(_ to_fp 11 53)", "RNE", v.C[0]))
+		},
+		// ltzero(v): v < 0 for a value of any numeric type (floats: IEEE comparison, false for NaN)
+		"ltzero": func(e *SpecEnv, n ECall) Val {
+			v := e.eval(n.Args[0])
+			if v.T != nil && isFloat(v.T) {
+				if layout(v.T)[0].Sort == SF32 {
+					return boolVal(sx("fp.lt", v.C[0], "((_ to_fp 8 24) RNE 0.0)"))
+				}
+				return boolVal(sx("fp.lt", v.C[0], "((_ to_fp 11 53) RNE 0.0)"))
+			}
+			return boolVal(sx("<", v.C[0], "0"))
+		},
+		// gomul(a, b): Go's a * b on the operands' type (sized integers wrap, floats round)
+		"gomul": func(e *SpecEnv, n ECall) Val {
+			a, b := e.eval(n.Args[0]), e.eval(n.Args[1])
+			if a.T != nil && isFloat(a.T) {
+				return Val{T: a.T, C: []string{fpArith("mul", layout(a.T)[0].Sort, a.C[0], b.C[0])}}
+			}
+			r := mul(a.C[0], b.C[0])
+			if a.T != nil && isInteger(a.T) {
+				if bits, _ := intBits(a.T); bits < 64 {
+					r = wrapInt(r, a.T)
+				}
+			}
+			return Val{T: a.T, C: []string{r}}
+		},
+		// boxed32(ref) / boxed64(ref): the float held by the interface box at ref (scalar operands of
+		// the tensor kernels appear in contents as 1000000 + ref)
+		"boxed32": func(e *SpecEnv, n ECall) Val {
+			return e.x.load(e.st, Addr{Prefix: "B$" + typeKey(types.Typ[types.Float32]), Ref: e.eval(n.Args[0]).C[0], T: types.Typ[types.Float32]})
+		},
+		"boxed64": func(e *SpecEnv, n ECall) Val {
+			return e.x.load(e.st, Addr{Prefix: "B$" + typeKey(types.Typ[types.Float64]), Ref: e.eval(n.Args[0]).C[0], T: types.Typ[types.Float64]})
+		},
+		"isnan": func(e *SpecEnv, n ECall) Val { return boolVal(sx("fp.isNaN", e.eval(n.Args[0]).C[0])) },
+		"isinf": func(e *SpecEnv, n ECall) Val { return boolVal(sx("fp.isInfinite", e.eval(n.Args[0]).C[0])) },
+		"fpeq": func(e *SpecEnv, n ECall) Val {
+			return boolVal(sx("fp.eq", e.eval(n.Args[0]).C[0], e.eval(n.Args[1]).C[0]))
+		},
 		"unbox": func(e *SpecEnv, n ECall) Val {
 			v := e.eval(n.Args[0])
 			s := n.Args[1].(EStr)
-			t := e.x.prog.typeByName(s.V)
+			t := e.x.typeByName(s.V)
 			if t == nil {
 				e.fail("unknown type %q", s.V)
 			}
